@@ -40,7 +40,14 @@ def tie_amount(rng, q):
     if r < 0.35:
         return (n + F(1, 2)) * q
     if r < 0.55:
-        return (n + F(1, 2)) * q + rng.choice([-1, 1]) * q / 10 ** 9
+        # a hair beside a tie (or beside a multiple, for the directed
+        # modes), from a thousandth down to 10**-29 of the quantum and not
+        # always a terminating decimal: rounding through any fixed number
+        # of decimals first lands on the tie / multiple itself
+        d = F(1, rng.choice([1, 1, 3, 7]) *
+              10 ** rng.choice([3, 6, 9, 10, 13, 19, 29]))
+        at = n + F(1, 2) if rng.random() < 0.7 else n
+        return (at + rng.choice([-1, 1]) * d) * q
     if r < 0.65:
         return n * q
     return rand_fraction(rng, small=rng.random() < 0.7)
